@@ -107,7 +107,14 @@ def tokenize(text, file="<input>"):
                 break
         else:
             raise TranslateError(file, "tokenizer", f"unexpected character {c!r} at {i}")
-    return toks
+    # a trailing comma before a closing delimiter cannot change meaning in the files we read (rustfmt adds them
+    # when it wraps a list; none of the translated files contains a one-element tuple): drop it
+    out = []
+    for t in toks:
+        if t[0] == "p" and t[1] in (")", "]", "}") and out and out[-1] == ("p", ","):
+            out.pop()
+        out.append(t)
+    return out
 
 
 class Cur:
